@@ -493,7 +493,7 @@ def corpus():
 
 def run(ctx) -> Report:
     rep = Report(rule=RULE)
-    n = ctx.scale(140, 1500)
+    n = ctx.scale(360, 3000)
     hs = corpus() + [gen_history(ctx.rng) for _ in range(n)]
     # every spelling on the first histories, then a rotating subset
     k = ctx.scale(4, 6)
